@@ -24,7 +24,8 @@ fn main() {
     match args.check.as_str() {
         "c01" => rt.block_on(c01::run(&args, &mut rep)),
         "c02" => rt.block_on(c02::run(&args, &mut rep)),
-        "c02merge" => rt.block_on(c02merge::run(&args, &mut rep)),
+        "c02merge" => rt.block_on(c02merge::run(&args, &mut rep, "C02")),
+        "c20merge" => rt.block_on(c02merge::run(&args, &mut rep, "C20")),
         "c12" => rt.block_on(c12::run(&args, &mut rep)),
         "c13" => rt.block_on(c13::run(&args, &mut rep)),
         "c16" => rt.block_on(c16::run(&args, &mut rep)),
